@@ -341,6 +341,35 @@ template <class X> static void xof_suite(const char *cls, int a, size_t declared
     hx_stat("nontrivial", 1);
 }
 
+/* objects with static storage duration in the application's translation unit: they are constructed before main(), in an order relative to the library's own
+ * dynamic initialisers that the language leaves open (with a static library the application's objects come first on the link line) */
+static const unsigned char SK[20] = {0x11, 0x32, 0x53, 0x74, 0x95, 0xb6, 0xd7, 0xf8, 0x19, 0x3a, 0x5b, 0x7c, 0x9d, 0xbe, 0xdf, 0xf0, 0x21, 0x42, 0x63, 0x84};
+#define STATIC_OBJS(T, n) static T g0_##n; static T g1_##n((const unsigned char *)0); static T g2_##n(SK);
+STATIC_OBJS(ascon::aead128, a128) STATIC_OBJS(ascon::aead128a, a128a) STATIC_OBJS(ascon::aead80pq, a80pq)
+STATIC_OBJS(ascon::aead128_masked, m128) STATIC_OBJS(ascon::aead128a_masked, m128a) STATIC_OBJS(ascon::aead80pq_masked, m80pq)
+STATIC_OBJS(ascon::siv128, s128) STATIC_OBJS(ascon::siv128a, s128a) STATIC_OBJS(ascon::siv80pq, s80pq)
+static ascon::isap128a g0_i128a, g1_i128a((const unsigned char *)0, 0), g2_i128a(SK, 16), g3_i128a(SK, 0);
+static ascon::isap128 g0_i128, g1_i128((const unsigned char *)0, 0), g2_i128(SK, 16), g3_i128(SK, 0);
+static ascon::isap80pq g0_i80pq, g1_i80pq((const unsigned char *)0, 0), g2_i80pq(SK, 20), g3_i80pq(SK, 0);
+static ascon::hash g_hash; static ascon::hasha g_hasha; static ascon::xof g_xof; static ascon::xofa g_xofa; static ascon::xof_with_output_length<32> g_xof32;
+#define STATIC_CHECK(n, cls, fam, alg) behaves_like(g0_##n, cls, "static-object-default-constructor", fam, alg, ZK); behaves_like(g1_##n, cls, "static-object-null-key-constructor", fam, alg, ZK); behaves_like(g2_##n, cls, "static-object-key-constructor", fam, alg, SK);
+static void static_objects()
+{
+    STATIC_CHECK(a128, "aead128", 0, 0) STATIC_CHECK(a128a, "aead128a", 0, 1) STATIC_CHECK(a80pq, "aead80pq", 0, 2)
+    STATIC_CHECK(m128, "aead128_masked", 1, 0) STATIC_CHECK(m128a, "aead128a_masked", 1, 1) STATIC_CHECK(m80pq, "aead80pq_masked", 1, 2)
+    STATIC_CHECK(s128, "siv128", 2, 0) STATIC_CHECK(s128a, "siv128a", 2, 1) STATIC_CHECK(s80pq, "siv80pq", 2, 2)
+    STATIC_CHECK(i128a, "isap128a", 3, 0) STATIC_CHECK(i128, "isap128", 3, 1) STATIC_CHECK(i80pq, "isap80pq", 3, 2)
+    behaves_like(g3_i128a, "isap128a", "static-object-zero-length-key-constructor", 3, 0, ZK); behaves_like(g3_i128, "isap128", "static-object-zero-length-key-constructor", 3, 1, ZK); behaves_like(g3_i80pq, "isap80pq", "static-object-zero-length-key-constructor", 3, 2, ZK);
+    /* a second use after clear(): back to the all-zero key */
+    g2_i128a.clear(); behaves_like(g2_i128a, "isap128a", "static-object-clear", 3, 0, ZK); g2_i128.clear(); behaves_like(g2_i128, "isap128", "static-object-clear", 3, 1, ZK); g2_i80pq.clear(); behaves_like(g2_i80pq, "isap80pq", "static-object-clear", 3, 2, ZK);
+    unsigned char d[32], e[32], o[40], oe[40];
+    g_hash.update(MSG, 13); g_hash.finalize(d); ascon_hash(e, MSG, 13); if (memcmp(d, e, 32)) hx_fail("cpp:hash:static-object", "digest of a static hash object differs from ascon_hash");
+    g_hasha.update(MSG, 13); g_hasha.finalize(d); ascon_hasha(e, MSG, 13); if (memcmp(d, e, 32)) hx_fail("cpp:hasha:static-object", "digest of a static hasha object differs from ascon_hasha");
+    g_xof.absorb(MSG, 13); g_xof.squeeze(o, 32); ascon_xof(oe, MSG, 13); if (memcmp(o, oe, 32)) hx_fail("cpp:xof:static-object", "output of a static xof object differs from ascon_xof");
+    g_xofa.absorb(MSG, 13); g_xofa.squeeze(o, 32); ascon_xofa(oe, MSG, 13); if (memcmp(o, oe, 32)) hx_fail("cpp:xofa:static-object", "output of a static xofa object differs from ascon_xofa");
+    { ascon_xof_state_t st; ascon_xof_init_fixed(&st, 32); ascon_xof_absorb(&st, MSG, 13); ascon_xof_squeeze(&st, oe, 32); ascon_xof_free(&st); g_xof32.absorb(MSG, 13); g_xof32.squeeze(o, 32); if (memcmp(o, oe, 32)) hx_fail("cpp:xof:static-object", "output of a static xof_with_output_length<32> object differs from the C functions"); }
+}
+
 int main()
 {
     hx_init();
@@ -358,6 +387,7 @@ int main()
     hash_suite<ascon::hash>("hash", 0); hash_suite<ascon::hasha>("hasha", 1);
     xof_suite<ascon::xof>("xof", 0, 0); xof_suite<ascon::xof_with_output_length<1> >("xof", 0, 1); xof_suite<ascon::xof_with_output_length<32> >("xof", 0, 32); xof_suite<ascon::xof_with_output_length<64> >("xof", 0, 64);
     xof_suite<ascon::xofa>("xofa", 1, 0); xof_suite<ascon::xofa_with_output_length<1> >("xofa", 1, 1); xof_suite<ascon::xofa_with_output_length<32> >("xofa", 1, 32); xof_suite<ascon::xofa_with_output_length<64> >("xofa", 1, 64);
+    static_objects();
     /* helper functions of utility.h */
     { ascon::byte_array b = ascon::bytes_from_hex("0a0B 0c"); if (b.size() != 3 || b[0] != 10 || b[2] != 12) hx_fail("cpp:utility", "bytes_from_hex(const char*)");
       b = ascon::bytes_from_hex("ff00", 4); if (b.size() != 2) hx_fail("cpp:utility", "bytes_from_hex(str,len)");
